@@ -109,7 +109,7 @@ def words_scope(res, pid, rng, tier):
     plans = []
     for r in range(rounds):
         words = WORDLISTS[(r // 2 + res.seed) % len(WORDLISTS)]
-        salt = SALTS[(3 * r + 1 + res.seed) % len(SALTS)]          # every list meets two different salts in this process
+        salt = SALTS[(5 * r + res.seed) % len(SALTS)]              # every list meets two different salts in this process
         hyp = all(re.fullmatch(r"[g-zG-Z].*[g-zG-Z]|[g-zG-Z]", w) and not re.search(r"[0-9a-fA-F]{6}", w) and not re.search(r"\s", w) for w in words)
         user_res = None
         if r % 3 == 1:
@@ -154,6 +154,27 @@ def words_scope(res, pid, rng, tier):
             if not rewrite_possible(a, b, words, cfg.salt):
                 fails.append({"kind": "a replacement is not the pseudonym determined by salt and matched text (or other text changed)",
                               "cfg": cfg.describe(), "line": ln, "output": out, "token_in": a, "token_out": b})
+    # secrets and words together: a scrubbed line keeps the text in front of the match - listed words there must still go
+    for words in (WORDLISTS[res.seed % len(WORDLISTS)], ["zulucorp", "hunter"]):
+        if not all(re.fullmatch(r"[g-zG-Z].*[g-zG-Z]|[g-zG-Z]", w) and not re.search(r"[0-9a-fA-F]{6}|\s|[^A-Za-z0-9]", w) for w in words):
+            continue
+        cfgw = fa.FaCfg(salt="sw", pwd=True, words=words)
+        lines_sw = ["interface %s-uplink %s\n" % (rand_case(rng, words[0]), f.format("hunter2xyz")) for f in L.SCRUB_FORMS[:6]]
+        lines_sw += ["description %s peer %s\n" % (words[-1], render(h).strip()) for h in gen_history(rng, 4, classes=["text"])]
+        outs_sw, _ = run_lines(cfgw, lines_sw)
+        res.evaluations += len(lines_sw)
+        for ln, o in zip(lines_sw, outs_sw):
+            for w in words:
+                if ci_contains(o, w):
+                    fails.append({"kind": "a listed sensitive word survives on a line that also holds a secret", "cfg": cfgw.describe(),
+                                  "line": ln, "output": o, "word": w})
+    # the command line passes user reserved words through unchanged (a reserved secret value in capitals stays)
+    from .ip_checks import run_cli
+    st, outs_cli, _ = run_cli(["-p", "-s", "x", "-r", "MyCorpRO,OtherWord"], {"a.cfg": "snmp-server community MyCorpRO ro\nsnmp-server community notReserved1 ro\n"})
+    res.evaluations += 1
+    if st != "ok" or not outs_cli.get("a.cfg", "").startswith("snmp-server community MyCorpRO ro\n"):
+        fails.append({"kind": "a secret value that is a (user) reserved word was replaced (command line)", "argv": ["-p", "-r", "MyCorpRO,OtherWord"],
+                      "status": st, "output": outs_cli.get("a.cfg")})
     # reserved secret values are left as is by secret anonymization
     cfgp = fa.FaCfg(salt="s", pwd=True, reserved=["MyReservedPw"])
     outs, _ = run_lines(cfgp, ["username bob password MyReservedPw\n", "snmp-server community MyReservedPw ro\n", "enable password level 12 trap\n"])
@@ -185,7 +206,10 @@ req = json.load(sys.stdin)
 out = []
 for r in req:
     for pre in r.get("before", []):
-        FileAnonymizer(**pre)
+        pre = dict(pre); rt = pre.pop("run_text", None)
+        f0 = FileAnonymizer(**pre)
+        if rt:
+            f0.anonymize_io(io.StringIO(rt), io.StringIO())
     if "files" in r:
         d = tempfile.mkdtemp(prefix="ncverif_")
         try:
@@ -236,9 +260,13 @@ def hashseed_scope(res, pid, rng, tier):
             text += "ip address 10.1.2.3 255.255.255.0\n neighbor 2001:db8::1 remote-as 65001\n"
             kw["as_numbers"] = ["65001", "12"] if r % 2 else None
         before = []
-        if pid == "C13" and r % 2:
+        if pid == "C13":
+            from .jun_checks import ref_encrypt
+            text += 'secret "%s"\n' % ref_encrypt("plain%d" % r, "Q")
+        if r % 2:
             before = [dict(anon_pwd=True, anon_ip=True, salt="other", reserved_words=["sea", words[0].upper(), "interface"],
-                           sensitive_words=["router"], preserve_networks=["10.1.0.0/16"])]
+                           sensitive_words=["router"] + list(words), as_numbers=["65001", "12"], preserve_networks=["10.1.0.0/16"],
+                           run_text=text)]
         reqs.append({"kwargs": kw, "text": text, "before": before})
     if pid == "C13":
         files = {}
@@ -328,7 +356,7 @@ def as_scope(res, pid, rng, tier):
     for r in range(rounds + len(edge)):
         if r < rounds:
             nums = AS_LISTS[(r // 2 + res.seed) % len(AS_LISTS)]
-            salt = SALTS[(3 * r + 1 + res.seed) % len(SALTS)]      # every list meets two different salts in this process
+            salt = SALTS[(5 * r + res.seed) % len(SALTS)]          # every list meets two different salts in this process
         else:
             salt, nums = edge[r - rounds]
         cfg = fa.FaCfg(salt=salt, asn=nums)
@@ -504,9 +532,15 @@ def structure_scope(res, pid, rng, tier):
             if cfg.nets:
                 plain.append(" neighbor 010.001.002.003 up\n")
         lines = lines[:-1] + plain + [lines[-1]]
+        # lines made of enclosing characters only; a sensitive-word line repeated with other trailing white space / terminator
+        odd = ['"\n', '""\n', "'\n", '" "\n', "  ''  \n", "}\n", "];\n", '\\"\n']
+        wl = (cfg.words or ["sea"])[0]
+        rep = ["hostname %s-core\n" % wl, "hostname %s-core  \n" % wl, "hostname %s-core\t\n" % wl, "hostname %s-core \r\n" % wl, "hostname %s-core\n" % wl]
+        lines = lines[:-1] + odd + rep + [lines[-1]]
+        plain += odd
         text = "".join(lines)
         try:
-            out = anon_text(cfg, text)
+            out = anon_text(cfg, text, newline="")
         except Exception as e:  # noqa
             fails.append({"kind": "anonymize_io raised", "cfg": cfg.describe(), "exc": repr(e)})
             continue
@@ -674,6 +708,8 @@ def compose_scope(res, pid, rng, tier):
                 text += "peer 20.1.2.3 2001:db8::1 as 65001 site sea-hq key-string 7 0822455D0A16\n"
                 text += " neighbor ::ffff:1.2.3.4 remote-as 12\n description seattle 65001 11.22.33.44\n"
                 text += " gw 2001:db8::9.8.7.6 via ::11.22.33.44 metric 100\n"
+                for rw in (base.reserved or []):
+                    text += "snmp-server community %s ro\nusername bob password %s\n" % (rw, rw)
                 try:
                     multi = anon_text(base, text)
                 except Exception as e:  # noqa
@@ -710,6 +746,26 @@ def compose_scope(res, pid, rng, tier):
                     k = next((i for i, (x, y) in enumerate(zip(la, lb)) if x != y), 0)
                     fails.append({"kind": "several features together differ from the features applied one after another",
                                   "cfg": base.describe(), "input_line": text.split("\n")[k], "together": la[k], "one_after_another": lb[k]})
+    # command line: several options together = the options one after another (-p then -a / -u, ...)
+    from .ip_checks import run_cli
+    text = "hostname r1\npassword foo   bar\nsnmp-server community s3cretXY ro\nip address 11.22.33.44 255.255.255.0\n neighbor 2001:db8::1 remote-as 65001\n"
+    for flags in (["-p", "-a"], ["-p", "-u"], ["-a", "-w", "sea"], ["-p", "-n", "65001"], ["-u", "-n", "65001", "-w", "hostname"]):
+        st, o, _ = run_cli(["-s", "cs"] + flags, {"a.cfg": text})
+        cur = text
+        ok_ = st == "ok"
+        steps = []
+        for fl in (["-p"], ["-a"], ["-u"], ["-w"], ["-n"]):
+            if fl[0] in flags:
+                arg = fl + ([flags[flags.index(fl[0]) + 1]] if fl[0] in ("-w", "-n") else [])
+                st2, o2, _ = run_cli(["-s", "cs"] + arg, {"a.cfg": cur})
+                ok_ = ok_ and st2 == "ok"
+                cur = o2.get("a.cfg", "")
+                steps.append(arg)
+        res.evaluations += 1
+        res.nt(("cli-compose", tuple(flags)))
+        if not ok_ or o.get("a.cfg") != cur:
+            fails.append({"kind": "command line: several options together differ from the same options one after another",
+                          "argv": flags, "together": o.get("a.cfg"), "one_after_another": cur, "steps": steps})
     return [], fails
 
 
